@@ -78,7 +78,10 @@ pub open spec fn misc_line_test(sm: &StateMachine) -> bool {
     (sm.source == Source::DiffUnified && is_prefix("Only in "@, sm.line@)) || is_prefix("Binary files "@, sm.line@)
 }
 
+pub open spec fn mp_known(mp: MergeParents) -> bool { !(mp is Unknown) }
+pub open spec fn mc_empty(m: &MergeConflictLines) -> bool { m.ours@.len() == 0 && m.ancestral@.len() == 0 && m.theirs@.len() == 0 }
 impl<'a> StateMachine<'a> {
+    //@ stub src/handlers/merge_conflict.rs StateMachine::handle_unterminated_merge_conflict optional=1 spec=merge.handle_unterminated
     //@ stub src/delta.rs StateMachine::emit_line_unchanged spec=delta.emit_line_unchanged
     //@ fn src/handlers/diff_header_misc.rs StateMachine::test_diff_file_missing
     //@| ensures r == (self.source == Source::DiffUnified && is_prefix("Only in "@, self.line@)),  // @C04,C10:only.in.lines.are.claimed.in.plain.diff.output.only
@@ -120,7 +123,7 @@ impl<'a> StateMachine<'a> {
     //@before <<<if self.config.commit_style.is_omitted>>>| assert(only_text_after(self.painter.writer.hist(), self.painter.writer.hist()));
     //@rewriteall <<<draw_fn(>>> => <<<verif_draw(&mut draw_fn,>>>
     //@ fn src/handlers/commit_meta.rs StateMachine::handle_commit_meta_header_line spec=misc.handle_commit_meta
-    //@after <<<self.painter.paint_buffered_minus_and_plus_lines();>>>| assert(/* @C01:commit.keeps.lines.step */ all_lines(&self.painter) =~= all_lines(&old(self).painter));
+    //@after <<<self.painter.paint_buffered_minus_and_plus_lines();>>>| assert(/* @C01:commit.keeps.lines.step */ !(old(self).state is MergeConflict) ==> all_lines(&self.painter) =~= all_lines(&old(self).painter));
     //@after <<<self.painter.emit()?;>>>| let ghost h1 = self.painter.writer.hist();
     //@afterstmt <<<self._handle_commit_meta_header_line()>>>| proof { lemma_hist_lines_only_text(h1, self.painter.writer.hist()); }
 }
